@@ -2081,4 +2081,120 @@ theorem C06_success_without_flush_witness :
     ∃ s, runMain c true (fun _ => true) [⟨1, true, false⟩] [] [] = (s, some (.exited c.succStatus)) ∧ s.pending = 1 ∧ s.printed = 0 := by
   refine ⟨_, rfl, ?_, ?_⟩ <;> decide
 
+/-! ## marked walks in general: one theorem, every walk an instance through its regenerated shape -/
+
+/-- what a marked walk that returned has done: kept every earlier mark, marked its start, marked nothing outside the universe -/
+def WalkSound (u marked : List Nat) (e : Nat) (m : List Nat) : Prop :=
+  (∀ x, x ∈ marked → x ∈ m) ∧ e ∈ m ∧ ∀ x, x ∈ m → x ∈ marked ∨ x ∈ u
+
+theorem visitSupers_sound (u : List Nat) (h : Hier) (fuel : Nat)
+    (IH : ∀ marked e m, e ∈ u → visit true h fuel marked e = some m → WalkSound u marked e m) :
+    ∀ (rest marked m : List Nat), (∀ y, y ∈ rest → y ∈ u) → visitSupers true h fuel marked rest = some m →
+      (∀ x, x ∈ marked → x ∈ m) ∧ ∀ x, x ∈ m → x ∈ marked ∨ x ∈ u := by
+  intro rest
+  induction rest with
+  | nil =>
+    intro marked m _ hv
+    simp [visitSupers] at hv
+    subst hv
+    exact ⟨fun x hx => hx, fun x hx => Or.inl hx⟩
+  | cons s rest ih =>
+    intro marked m hu hv
+    by_cases hs : s ∈ marked
+    · simp [visitSupers, hs] at hv
+      exact ih marked m (fun y hy => hu y (List.mem_cons_of_mem _ hy)) hv
+    · simp only [visitSupers, hs, if_false] at hv
+      cases h1 : visit true h fuel marked s with
+      | none => simp [h1] at hv
+      | some m1 =>
+        simp only [h1] at hv
+        obtain ⟨a1, _, c1⟩ := IH marked s m1 (hu s List.mem_cons_self) h1
+        obtain ⟨a2, c2⟩ := ih m1 m (fun y hy => hu y (List.mem_cons_of_mem _ hy)) hv
+        refine ⟨fun x hx => a2 x (a1 x hx), fun x hx => ?_⟩
+        rcases c2 x hx with hx1 | hx1
+        · exact c1 x hx1
+        · exact Or.inr hx1
+
+theorem visit_sound (u : List Nat) (h : Hier) (hc : Closed u h) :
+    ∀ (fuel : Nat) (marked : List Nat) (e : Nat) (m : List Nat), e ∈ u → visit true h fuel marked e = some m →
+      WalkSound u marked e m := by
+  intro fuel
+  induction fuel with
+  | zero => intro marked e m _ hv; simp [visit] at hv
+  | succ fuel IH =>
+    intro marked e m he hv
+    simp only [visit, if_true] at hv
+    cases h1 : visitSupers true h fuel (e :: marked) (h e) with
+    | none => simp [h1] at hv
+    | some m1 =>
+      simp [h1] at hv
+      subst hv
+      obtain ⟨a, c⟩ := visitSupers_sound u h fuel IH (h e) (e :: marked) m1 (hc e he) h1
+      refine ⟨fun x hx => a x (List.mem_cons_of_mem _ hx), a e List.mem_cons_self, fun x hx => ?_⟩
+      rcases c x hx with hx1 | hx1
+      · rcases List.mem_cons.mp hx1 with rfl | hx2
+        · exact Or.inr he
+        · exact Or.inl hx2
+      · exact Or.inr hx1
+
+/-- the shape of a recursive C function over a graph, as the extractor reports it: its name and whether it puts a mark that
+stays (guard form, mark before the recursion, nothing in the body restarts a search) -/
+abbrev WalkShape := String × Bool
+
+/-- **C06, marked walks in general**: for every table of walk shapes all of whose entries carry the mark — whatever the
+functions are — every walk of the table returns on every finite graph from every start, within fuel |nodes| + 1, keeps
+the marks it found, marks its start and marks nothing outside the graph.  A new recursive function is covered by adding
+its regenerated shape to a table; nothing else has to be proved. -/
+theorem C06_marked_walks_terminate (tbl : List WalkShape) (hall : tbl.all (fun p => p.2) = true)
+    (w : String) (mf : Bool) (hm : (w, mf) ∈ tbl)
+    (u : List Nat) (h : Hier) (hc : Closed u h) (marked : List Nat) (e : Nat) (he : e ∈ u) :
+    ∃ m, visit mf h (u.length + 1) marked e = some m ∧ WalkSound u marked e m := by
+  have : mf = true := List.all_eq_true.mp hall (w, mf) hm
+  subst this
+  obtain ⟨m, hv⟩ := visit_terminates u h hc marked e he
+  exact ⟨m, hv, visit_sound u h hc (u.length + 1) marked e m he hv⟩
+
+/-- every recursive function over a possibly cyclic graph that C06 covers through its mark, with its regenerated shape -/
+def markedWalks : List WalkShape :=
+  [("ENTITYcalculate_inheritance", inheritanceMarkFirst), ("ENTITY_get_named_attribute_once", namedAttrMarkFirst),
+   ("EXP_resolve_op_dot_fuzzy / EXP_resolve_op_group_fuzzy", selectSearchMarkStable)] ++ graphWalks
+
+/-- **C06, all marked walks of the tools** (11 C functions): each is an instance of `C06_marked_walks_terminate` through its
+regenerated shape; `C06_inheritance_terminates`, `C06_named_attribute_terminates`, `C06_select_qualifier_terminates` and
+`C06_import_graph_walks_terminate` are the entries of this table (and follow from it, see the examples below), now with
+what the walk leaves behind as well. -/
+theorem C06_all_marked_walks (w : String) (mf : Bool) (hm : (w, mf) ∈ markedWalks)
+    (u : List Nat) (h : Hier) (hc : Closed u h) (marked : List Nat) (e : Nat) (he : e ∈ u) :
+    ∃ m, visit mf h (u.length + 1) marked e = some m ∧ WalkSound u marked e m :=
+  C06_marked_walks_terminate markedWalks (by decide) w mf hm u h hc marked e he
+
+/-- a table with an unmarked entry is refused: the general theorem has nothing to say about it, and the walk it describes
+need not return (`C06_recursion_unmarked_witness`) -/
+theorem C06_unmarked_shape_not_covered :
+    ([("seed a1", false)] : List WalkShape).all (fun p => p.2) = false ∧
+    ∀ fuel, visit false (fun _ => [0]) fuel [] 0 = none :=
+  ⟨by decide, visit_unmarked_self_loop⟩
+
+-- the four earlier theorems as corollaries of the table
+example (u : List Nat) (h : Hier) (hc : Closed u h) (marked : List Nat) (e : Nat) (he : e ∈ u) :
+    ∃ m, visit inheritanceMarkFirst h (u.length + 1) marked e = some m := by
+  obtain ⟨m, hv, _⟩ := C06_all_marked_walks "ENTITYcalculate_inheritance" inheritanceMarkFirst (by simp [markedWalks]) u h hc marked e he
+  exact ⟨m, hv⟩
+
+example (u : List Nat) (h : Hier) (hc : Closed u h) (marked : List Nat) (e : Nat) (he : e ∈ u) :
+    ∃ m, visit namedAttrMarkFirst h (u.length + 1) marked e = some m := by
+  obtain ⟨m, hv, _⟩ := C06_all_marked_walks "ENTITY_get_named_attribute_once" namedAttrMarkFirst (by simp [markedWalks]) u h hc marked e he
+  exact ⟨m, hv⟩
+
+example (u : List Nat) (h : Hier) (hc : Closed u h) (marked : List Nat) (e : Nat) (he : e ∈ u) :
+    ∃ m, visit selectSearchMarkStable h (u.length + 1) marked e = some m := by
+  obtain ⟨m, hv, _⟩ := C06_all_marked_walks "EXP_resolve_op_dot_fuzzy / EXP_resolve_op_group_fuzzy" selectSearchMarkStable (by simp [markedWalks]) u h hc marked e he
+  exact ⟨m, hv⟩
+
+example (w : String) (mf : Bool) (hm : (w, mf) ∈ graphWalks)
+    (u : List Nat) (h : Hier) (hc : Closed u h) (marked : List Nat) (e : Nat) (he : e ∈ u) :
+    ∃ m, visit mf h (u.length + 1) marked e = some m := by
+  obtain ⟨m, hv, _⟩ := C06_all_marked_walks w mf (by simp [markedWalks, hm]) u h hc marked e he
+  exact ⟨m, hv⟩
+
 end StepModel.C06
